@@ -87,6 +87,15 @@ type Frame struct {
 	depth    int
 	// iterator handler frames: where to continue when the handler returns
 	iter *iterCtx
+	// named locals of inlined helpers that have returned into this frame (latest last): clauses may still name them
+	retired []retiredLocal
+	invSkip map[*ssa.BasicBlock]map[int]bool // invariants dropped at loop entry because they do not bind
+}
+
+type retiredLocal struct {
+	name string
+	typ  string
+	ptr  Value
 }
 
 type State struct {
